@@ -508,265 +508,91 @@ func c05R1R4(c *Ctx, p *Prog) {
 
 func c05R2(c *Ctx, p *Prog) {
 	const rule = "C05.R2"
-	pk := p.Pkg("board")
-	fd := p.Decl("board.(*Board).IsPseudoLegal")
-	if pk == nil || fd == nil {
+	fn := p.Func("board.(*Board).IsPseudoLegal")
+	if fn == nil {
 		c.Anchor(rule, "board.(*Board).IsPseudoLegal")
 		return
 	}
-	info := pk.TypesInfo
 	gens := castleMethods(&Ctx{Progs: c.Progs, cur: c.cur}, p, rule) // silent extraction; C01.R4 reports on it
 	bySide := map[int64]castleFacts{}
 	for _, g := range gens {
 		bySide[g.Side] = g
 	}
 	short, _ := p.pkgConstInt("chess.Short")
-	// single-definition locals: object -> defining expression
-	defs := map[types.Object]ast.Expr{}
-	multi := map[types.Object]bool{}
-	ast.Inspect(fd.Body, func(n ast.Node) bool {
-		as, ok := n.(*ast.AssignStmt)
-		if !ok {
-			return true
-		}
-		for i, l := range as.Lhs {
-			id, ok := l.(*ast.Ident)
-			if !ok {
-				continue
+	long, _ := p.pkgConstInt("chess.Long")
+	// castling cases: blocks where from == f and to == f±2 (f on the e-file of a back rank) are known
+	type caseKey struct{ from, to int64 }
+	entry := map[caseKey]*ssa.BasicBlock{}
+	for _, b := range fn.Blocks {
+		as := mustHold(b)
+		var f, t int64 = -1, -1
+		for _, a := range as {
+			if a.Kind == "from==" && a.Pol {
+				f = a.Arg
 			}
-			obj := info.ObjectOf(id)
-			if obj == nil {
-				continue
-			}
-			if as.Tok == token.DEFINE && len(as.Lhs) == len(as.Rhs) {
-				if _, seen := defs[obj]; seen {
-					multi[obj] = true
-				}
-				defs[obj] = as.Rhs[i]
-			} else {
-				multi[obj] = true
+			if a.Kind == "to==" && a.Pol {
+				t = a.Arg
 			}
 		}
-		return true
-	})
-	defOf := func(e ast.Expr) ast.Expr {
-		id, ok := ast.Unparen(e).(*ast.Ident)
-		if !ok {
-			return nil
+		if f < 0 || t < 0 || (t-f != 2 && f-t != 2) {
+			continue
 		}
-		obj := info.ObjectOf(id)
-		if obj == nil || multi[obj] {
-			return nil
+		k := caseKey{f, t}
+		if e, ok := entry[k]; !ok || b.Dominates(e) {
+			entry[k] = b
 		}
-		return defs[obj]
 	}
-	isAcc := func(e ast.Expr, acc string) bool {
-		for i := 0; i < 4 && e != nil; i++ {
-			if call, ok := ast.Unparen(e).(*ast.CallExpr); ok {
-				if isConversion(info, call) && len(call.Args) == 1 {
-					e = call.Args[0]
-					continue
-				}
-				if cal := astCallee(info, call); cal != nil && objName(cal) == "move.(Move)."+acc {
-					return true
-				}
-				return false
-			}
-			e = defOf(e)
-		}
-		return false
+	var keys []caseKey
+	for k := range entry {
+		keys = append(keys, k)
 	}
-	isField := func(e ast.Expr, name string) bool {
-		sel, ok := ast.Unparen(e).(*ast.SelectorExpr)
-		if !ok {
-			return false
-		}
-		if s := info.Selections[sel]; s != nil {
-			if v, ok := s.Obj().(*types.Var); ok && v.IsField() && v.Name() == name {
-				return true
-			}
-		}
-		return false
-	}
-	var isOcc func(e ast.Expr, d int) bool
-	isOcc = func(e ast.Expr, d int) bool {
-		if d > 4 || e == nil {
-			return false
-		}
-		e = ast.Unparen(e)
-		if be, ok := e.(*ast.BinaryExpr); ok && be.Op == token.OR {
-			colours := func(x ast.Expr) bool {
-				ix, ok := ast.Unparen(x).(*ast.IndexExpr)
-				if !ok || !isField(ix.X, "Colors") {
-					return false
-				}
-				_, isC := isColorConst(info, ix.Index)
-				return isC
-			}
-			return colours(be.X) && colours(be.Y)
-		}
-		return isOcc(defOf(e), d+1)
-	}
-	// bitboard evaluator within a castling case (from/to constants known)
-	var evalBB func(e ast.Expr, from, to int64, d int) (uint64, bool)
-	evalBB = func(e ast.Expr, from, to int64, d int) (uint64, bool) {
-		if d > 6 || e == nil {
-			return 0, false
-		}
-		e = ast.Unparen(e)
-		if u, ok := constUint(info, e); ok {
-			return u, true
-		}
-		switch x := e.(type) {
-		case *ast.CallExpr:
-			if isConversion(info, x) && len(x.Args) == 1 {
-				return evalBB(x.Args[0], from, to, d+1)
-			}
-			if cal := astCallee(info, x); cal != nil && objName(cal) == "chess.BitBoardFromSquares" {
-				var m uint64
-				for _, a := range x.Args {
-					v, ok := constInt(info, a)
-					if !ok || v < 0 || v > 63 {
-						return 0, false
-					}
-					m |= 1 << uint(v)
-				}
-				return m, true
-			}
-			return 0, false
-		case *ast.BinaryExpr:
-			if x.Op == token.SHL {
-				if one, ok := evalBB(x.X, from, to, d+1); ok && one == 1 {
-					if isAcc(x.Y, "From") {
-						return 1 << uint(from), true
-					}
-					if isAcc(x.Y, "To") {
-						return 1 << uint(to), true
-					}
-				}
-				return 0, false
-			}
-			a, ok1 := evalBB(x.X, from, to, d+1)
-			b, ok2 := evalBB(x.Y, from, to, d+1)
-			if !ok1 || !ok2 {
-				return 0, false
-			}
-			switch x.Op {
-			case token.OR:
-				return a | b, true
-			case token.AND:
-				return a & b, true
-			case token.AND_NOT:
-				return a &^ b, true
-			case token.XOR:
-				return a ^ b, true
-			}
-			return 0, false
-		case *ast.Ident:
-			return evalBB(defOf(x), from, to, d+1)
-		}
-		return 0, false
-	}
-	n := 0
-	ast.Inspect(fd.Body, func(nd ast.Node) bool {
-		cc, ok := nd.(*ast.CaseClause)
-		if !ok || len(cc.List) != 1 {
-			return true
-		}
-		// case <from> == X && <to> == Y && b.STM == C
-		var conj []ast.Expr
-		flatten(cc.List[0], token.LAND, &conj)
-		var from, to, col int64 = -1, -1, -1
-		for _, e := range conj {
-			be, ok := ast.Unparen(e).(*ast.BinaryExpr)
-			if !ok || be.Op != token.EQL {
-				continue
-			}
-			x, y := be.X, be.Y
-			k, isc := constInt(info, y)
-			if !isc {
-				if k2, ok := constInt(info, x); ok {
-					x, k, isc = y, k2, true
-				}
-			}
-			if !isc {
-				continue
-			}
-			switch {
-			case isAcc(x, "From"):
-				from = k
-			case isAcc(x, "To"):
-				to = k
-			case isField(x, "STM"):
-				col = k
-			}
-		}
-		if from < 0 || to < 0 || (to-from != 2 && from-to != 2) {
-			return true
-		}
-		n++
-		name := fmt.Sprintf("IsPseudoLegal#castle:%s%s", sqName(from), sqName(to))
+	sort.Slice(keys, func(i, j int) bool { return keys[i].from*64+keys[i].to < keys[j].from*64+keys[j].to })
+	for _, k := range keys {
+		eb := entry[k]
+		name := fmt.Sprintf("IsPseudoLegal#castle:%s%s", sqName(k.from), sqName(k.to))
 		wantCol := int64(0)
-		if from/8 == 7 {
+		if k.from/8 == 7 {
 			wantCol = 1
 		}
 		colName := map[int64]string{0: "White", 1: "Black"}[wantCol]
-		c.Check(col == wantCol, rule, name+"#side-to-move", cc.Pos(), "castling case is guarded by STM == %s (found %d): otherwise the opponent's king move e1g1/e8g8 could be accepted as castling with the wrong rights", colName, col)
+		// the castling tests proper start where the side to move is known as well
+		var sb *ssa.BasicBlock
+		for _, b := range fn.Blocks {
+			if (b == eb || eb.Dominates(b)) && hasAtom(mustHold(b), "stm==", wantCol, true) {
+				if sb == nil || b.Dominates(sb) {
+					sb = b
+				}
+			}
+		}
+		stmOK := sb != nil
+		if stmOK {
+			// every castling test of this case lies in the STM-guarded region
+			probe := castleCaseFacts(fn, eb, k.from, k.to)
+			inner := castleCaseFacts(fn, sb, k.from, k.to)
+			stmOK = probe.rightsSeen == inner.rightsSeen && probe.emptySeen == inner.emptySeen && probe.attSeen == inner.attSeen
+			eb = sb
+		}
+		c.Check(stmOK, rule, name+"#side-to-move", eb.Instrs[0].Pos(), "castling case is guarded by STM == %s: otherwise the opponent's king move e1g1/e8g8 could be accepted as castling with the wrong rights", colName)
 		side := short
-		if to < from {
-			side, _ = p.pkgConstInt("chess.Long")
+		if k.to < k.from {
+			side = long
 		}
 		g, ok := bySide[side]
-		if !ok {
-			c.Undec(rule, name+"#generator", cc.Pos(), "no generator castling method for side %d found", side)
-			return true
+		if !ok || g.EmptyExpr == "" || len(g.Mask) != 2 {
+			c.Undec(rule, name+"#generator", eb.Instrs[0].Pos(), "the generator's castling facts for side %d were not recognised (see C01.R4)", side)
+			continue
 		}
-		var rights int64 = -1
-		var empty, unatt uint64
-		var haveEmpty, haveUnatt, undecEmpty, undecUnatt bool
-		for _, s := range cc.Body {
-			ast.Inspect(s, func(x ast.Node) bool {
-				switch y := x.(type) {
-				case *ast.BinaryExpr:
-					if y.Op == token.AND {
-						for _, pr := range [][2]ast.Expr{{y.X, y.Y}, {y.Y, y.X}} {
-							if isField(pr[0], "Castles") {
-								if k, ok := constInt(info, pr[1]); ok {
-									rights = k
-								}
-							}
-							if isOcc(pr[1], 0) {
-								if m, ok := evalBB(pr[0], from, to, 0); ok {
-									empty, haveEmpty = m, true
-								} else {
-									undecEmpty = true
-								}
-							}
-						}
-					}
-				case *ast.CallExpr:
-					if cal := astCallee(info, y); cal != nil && objName(cal) == "board.(*Board).IsAttacked" && len(y.Args) == 3 {
-						if m, ok := evalBB(y.Args[2], from, to, 0); ok {
-							unatt, haveUnatt = m, true
-						} else {
-							undecUnatt = true
-						}
-						okBy := false
-						if call, ok := ast.Unparen(y.Args[0]).(*ast.CallExpr); ok {
-							if cal := astCallee(info, call); cal != nil && objName(cal) == "chess.(Color).Flip" && len(call.Args) == 0 {
-								if sel, ok := call.Fun.(*ast.SelectorExpr); ok && isField(sel.X, "STM") {
-									okBy = true
-								}
-							}
-						}
-						c.Check(okBy, rule, name+"#attacked-by-opponent", y.Pos(), "the king's path is tested against attacks by STM.Flip()")
-					}
-				}
-				return true
-			})
-		}
+		facts := castleCaseFacts(fn, eb, k.from, k.to)
 		wantRights := int64(1) << uint(2*wantCol+side)
-		c.Check(rights == wantRights, rule, name+"#rights", cc.Pos(), "acceptor tests rights bit %#x; generator tests Castle(%s, side %d) = %#x", rights, colName, side, wantRights)
+		pos := eb.Instrs[0].Pos()
+		switch {
+		case facts.rightsSeen && facts.rightsOK:
+			c.Check(facts.rights == wantRights, rule, name+"#rights", pos, "acceptor tests rights bit %#x; generator tests Castle(%s, side %d) = %#x", facts.rights, colName, side, wantRights)
+		case facts.rightsSeen:
+			c.Undec(rule, name+"#rights", pos, "the rights bit tested by the acceptor is not a constant the rule can evaluate")
+		default:
+			c.Fail(rule, name+"#rights", pos, "the acceptor does not test a castling right in this case; generator tests Castle(%s, side %d)", colName, side)
+		}
 		gm := g.Mask[colName]
 		var gEmpty uint64
 		home := uint(4 + 56*wantCol)
@@ -777,25 +603,149 @@ func c05R2(c *Ctx, p *Prog) {
 			gEmpty = gm >> 1
 		}
 		switch {
-		case haveEmpty:
-			c.Check(empty == gEmpty, rule, name+"#empty", cc.Pos(), "acceptor requires %#x empty; generator requires %#x", empty, gEmpty)
-		case undecEmpty:
-			c.Undec(rule, name+"#empty", cc.Pos(), "the acceptor's must-be-empty set is not a closed bitboard expression the rule can evaluate")
+		case facts.emptySeen && facts.emptyOK:
+			c.Check(facts.empty == gEmpty, rule, name+"#empty", pos, "acceptor requires %#x empty; generator requires %#x", facts.empty, gEmpty)
+		case facts.emptySeen:
+			c.Undec(rule, name+"#empty", pos, "the acceptor's must-be-empty set is not a closed bitboard expression the rule can evaluate")
 		default:
-			c.Fail(rule, name+"#empty", cc.Pos(), "the acceptor has no emptiness test against the occupancy; generator requires %#x empty", gEmpty)
+			c.Fail(rule, name+"#empty", pos, "the acceptor has no emptiness test against the occupancy; generator requires %#x empty", gEmpty)
 		}
 		switch {
-		case haveUnatt:
-			c.Check(unatt == gm, rule, name+"#unattacked", cc.Pos(), "acceptor requires %#x unattacked; generator requires %#x", unatt, gm)
-		case undecUnatt:
-			c.Undec(rule, name+"#unattacked", cc.Pos(), "the acceptor's must-be-unattacked set is not a closed bitboard expression the rule can evaluate")
+		case facts.attSeen && facts.attOK:
+			c.Check(facts.unatt == gm, rule, name+"#unattacked", pos, "acceptor requires %#x unattacked; generator requires %#x", facts.unatt, gm)
+			c.Check(facts.byOpp, rule, name+"#attacked-by-opponent", pos, "the king's path is tested against attacks by STM.Flip()")
+		case facts.attSeen:
+			c.Undec(rule, name+"#unattacked", pos, "the acceptor's must-be-unattacked set is not a closed bitboard expression the rule can evaluate")
 		default:
-			c.Fail(rule, name+"#unattacked", cc.Pos(), "the acceptor has no IsAttacked test; generator requires %#x unattacked", gm)
+			c.Fail(rule, name+"#unattacked", pos, "the acceptor has no IsAttacked test; generator requires %#x unattacked", gm)
 		}
-		c.Check(uint(from) == home && to-from == g.Delta, rule, name+"#squares", cc.Pos(), "acceptor's king move %s%s equals the generator's home%+d", sqName(from), sqName(to), g.Delta)
-		return true
-	})
-	c.Floor(rule, n, 4, "castling cases in IsPseudoLegal")
+		c.Check(uint(k.from) == home && k.to-k.from == g.Delta, rule, name+"#squares", pos, "acceptor's king move %s%s equals the generator's home%+d", sqName(k.from), sqName(k.to), g.Delta)
+	}
+	c.Floor(rule, len(keys), 4, "castling cases in IsPseudoLegal")
+}
+
+type castleCase struct {
+	rights                         int64
+	rightsSeen, rightsOK           bool
+	empty, unatt                   uint64
+	emptySeen, emptyOK             bool
+	attSeen, attOK, byOpp          bool
+}
+
+// castleCaseFacts reads the rights bit, must-be-empty and must-be-unattacked sets tested in the
+// region of fn dominated by entry, following static calls to helpers of package board (their
+// parameters bound to the arguments).
+func castleCaseFacts(fn *ssa.Function, entry *ssa.BasicBlock, from, to int64) castleCase {
+	var cc castleCase
+	var scan func(f *ssa.Function, region func(*ssa.BasicBlock) bool, bind map[ssa.Value]ssa.Value, depth int)
+	var evalBB func(v ssa.Value, bind map[ssa.Value]ssa.Value, d int) (uint64, bool)
+	resolve := func(v ssa.Value, bind map[ssa.Value]ssa.Value) ssa.Value {
+		v = stripConv(v)
+		for i := 0; i < 4; i++ {
+			if r, ok := bind[v]; ok {
+				v = stripConv(r)
+			} else {
+				break
+			}
+		}
+		return v
+	}
+	evalBB = func(v ssa.Value, bind map[ssa.Value]ssa.Value, d int) (uint64, bool) {
+		if d > 8 {
+			return 0, false
+		}
+		v = resolve(v, bind)
+		if k, ok := v.(*ssa.Const); ok && k.Value != nil {
+			return k.Uint64(), true
+		}
+		if m, ok := bbFromSquaresConst(v); ok {
+			return m, true
+		}
+		if bo, ok := v.(*ssa.BinOp); ok {
+			if bo.Op == token.SHL {
+				if one, isc := constOf(bo.X); isc && one == 1 {
+					y := resolve(bo.Y, bind)
+					if isCallValueTo(y, "move.(Move).From") {
+						return 1 << uint(from), true
+					}
+					if isCallValueTo(y, "move.(Move).To") {
+						return 1 << uint(to), true
+					}
+				}
+				return 0, false
+			}
+			a, ok1 := evalBB(bo.X, bind, d+1)
+			b, ok2 := evalBB(bo.Y, bind, d+1)
+			if !ok1 || !ok2 {
+				return 0, false
+			}
+			switch bo.Op {
+			case token.OR:
+				return a | b, true
+			case token.AND:
+				return a & b, true
+			case token.AND_NOT:
+				return a &^ b, true
+			case token.XOR:
+				return a ^ b, true
+			}
+		}
+		return 0, false
+	}
+	isOcc := func(v ssa.Value, bind map[ssa.Value]ssa.Value) bool { return isOccBoth(resolve(v, bind)) }
+	scan = func(f *ssa.Function, region func(*ssa.BasicBlock) bool, bind map[ssa.Value]ssa.Value, depth int) {
+		for _, b := range f.Blocks {
+			if !region(b) {
+				continue
+			}
+			for _, in := range b.Instrs {
+				switch x := in.(type) {
+				case *ssa.BinOp:
+					if x.Op != token.AND {
+						continue
+					}
+					for _, pr := range [][2]ssa.Value{{x.X, x.Y}, {x.Y, x.X}} {
+						if isFieldLoad(stripConv(pr[0]), "Board.Castles") {
+							cc.rightsSeen = true
+							if k, isc := constOf(resolve(pr[1], bind)); isc {
+								cc.rights, cc.rightsOK = k, true
+							}
+						}
+						if isOcc(pr[1], bind) {
+							cc.emptySeen = true
+							if m, ok := evalBB(pr[0], bind, 0); ok {
+								cc.empty, cc.emptyOK = m, true
+							}
+						}
+					}
+				case *ssa.Call:
+					switch objName(calleeObj(x)) {
+					case "board.(*Board).IsAttacked":
+						cc.attSeen = true
+						if m, ok := evalBB(x.Call.Args[3], bind, 0); ok {
+							cc.unatt, cc.attOK = m, true
+						}
+						if ce, ok := normColour(resolve(x.Call.Args[1], bind)); ok && ce == (colourExpr{"STM", true}) {
+							cc.byOpp = true
+						}
+					default:
+						callee := x.Call.StaticCallee()
+						if callee != nil && isOwn(callee) && callee.Blocks != nil && depth < 2 && relPkg(fnPkgPath(callee)) == "board" && callee != fn {
+							nb := map[ssa.Value]ssa.Value{}
+							for i, pa := range callee.Params {
+								if i < len(x.Call.Args) {
+									nb[pa] = resolve(x.Call.Args[i], bind)
+								}
+							}
+							scan(callee, func(*ssa.BasicBlock) bool { return true }, nb, depth+1)
+						}
+					}
+				}
+			}
+		}
+	}
+	scan(fn, func(b *ssa.BasicBlock) bool { return b == entry || entry.Dominates(b) }, map[ssa.Value]ssa.Value{}, 0)
+	return cc
 }
 
 // ---------- R5 move word layout ----------
